@@ -25,7 +25,9 @@ VARIABLES l, mfiles, mcur, cfiles, ccur,
 Trace == ndJsonDeserialize("trace.ndjson")
 T == Trace[l]
 svars == <<pvars, l, mfiles, mcur, cfiles, ccur, nStarts, nBad, nConn, thr>>
-ThrOff == [on |-> FALSE, min |-> 0, cap |-> 0, tok |-> 0, rec |-> FALSE, win |-> TRUE]
+ThrOff == [on |-> FALSE, min |-> 0, cap |-> 0, tok |-> 0, rec |-> FALSE, win |-> TRUE, lost |-> FALSE]
+\* thr.lost: the temp file of the motion recording in progress was unlinked under the daemon (storage failure scripted
+\* by the harness): the recording goes on, but its final rename fails and no file is published for it
 \* thr.win: whether the recording window read from config.toml is open during the run (runs are scripted with
 \* windows that lie an hour around or an hour after the current time)
 RECURSIVE SumLen(_, _)
@@ -44,7 +46,8 @@ Collect(st, cs) ==
       canStart == t.tok >= t.min
       st1 == CASE c.s = "m" /\ c.op = "start" /\ ~t.on -> [st EXCEPT !.mcur = <<>>, !.nst = @ + 1]
                [] c.s = "m" /\ c.op = "w" /\ ~t.on     -> [st EXCEPT !.mcur = Append(@, c.id)]
-               [] c.s = "m" /\ c.op = "stop" /\ ~t.on  -> [st EXCEPT !.mfiles = Append(@, st.mcur), !.mcur = <<>>]
+               [] c.s = "m" /\ c.op = "stop" /\ ~t.on  -> IF t.lost THEN [st EXCEPT !.mcur = <<>>, !.thr.lost = FALSE]
+                                                            ELSE [st EXCEPT !.mfiles = Append(@, st.mcur), !.mcur = <<>>]
                [] c.s = "m" /\ c.op = "start" /\ t.on  -> IF canStart THEN [st EXCEPT !.mcur = <<>>, !.thr.rec = TRUE, !.nst = @ + 1] ELSE st
                [] c.s = "m" /\ c.op = "w" /\ t.on      ->
                     IF ~t.rec /\ ~canStart THEN st                           \* suppressed
@@ -76,10 +79,13 @@ TConn == /\ T.ev = "conn"          \* a new camera connection: new processor, se
          /\ cfiles' = (IF T.newrun THEN <<>> ELSE cfiles)
          /\ nStarts' = (IF T.newrun THEN 0 ELSE nStarts) /\ nBad' = (IF T.newrun THEN 0 ELSE nBad)
          /\ nConn' = (IF T.newrun THEN 1 ELSE nConn + 1)
-         /\ thr' = (IF "ThrCap" \in DOMAIN T THEN [on |-> TRUE, min |-> T.ThrMin, cap |-> T.ThrCap, tok |-> T.ThrCap, rec |-> FALSE, win |-> TRUE] ELSE [ThrOff EXCEPT !.win = (IF "WinOpen" \in DOMAIN T THEN T.WinOpen ELSE TRUE)])
+         /\ thr' = (IF "ThrCap" \in DOMAIN T THEN [on |-> TRUE, min |-> T.ThrMin, cap |-> T.ThrCap, tok |-> T.ThrCap, rec |-> FALSE, win |-> TRUE, lost |-> FALSE] ELSE [ThrOff EXCEPT !.win = (IF "WinOpen" \in DOMAIN T THEN T.WinOpen ELSE TRUE)])
 TFrame == T.ev = "frame" /\ Frame(AllOk(T.motion)) /\ fid' = T.id /\ Upd /\ UNCHANGED nBad
 TClear == T.ev = "clear" /\ Reset(TRUE) /\ Upd /\ UNCHANGED nBad
 TBad   == T.ev = "bad" /\ BadFrame(TRUE, TRUE) /\ Upd /\ nBad' = nBad + 1
+TRmTemps == /\ T.ev = "rmtemps" /\ ~thr.on          \* every *.cptv.temp of the output directory is unlinked (not the continuous recorder's)
+            /\ thr' = [thr EXCEPT !.lost = rec]
+            /\ UNCHANGED <<pvars, mfiles, mcur, cfiles, ccur, nStarts, nBad, nConn>>
 (* what the daemon told the other services over the system bus (fake bus): automatic FFC is switched on at every  *)
 (* connection and off / on around every motion recording; each bad frame is reported as a 'bad-thermal-frame'      *)
 (* event and answered with a camera restart request                                                              *)
@@ -115,6 +121,6 @@ TFiles == /\ T.ev = "files" /\ UNCHANGED <<pvars, mfiles, mcur, cfiles, ccur>>
                       \cup (IF thr.on /\ nConn = 1 /\ (\E k \in DOMAIN T.motion : SumLen(T.motion, k - 1) + thr.min > thr.cap)
                             THEN {"SYS:thr-start-without-full-clip"} ELSE {})
              IN IF v = {} THEN TRUE ELSE PrintT(<<"VIOL", l, v, mfiles, cfiles>>)
-TNext == l <= Len(Trace) /\ l' = l + 1 /\ (TConn \/ TFrame \/ TClear \/ TBad \/ TFiles \/ TBus)
+TNext == l <= Len(Trace) /\ l' = l + 1 /\ (TConn \/ TFrame \/ TClear \/ TBad \/ TFiles \/ TBus \/ TRmTemps)
 Consumed == TLCGet("stats").diameter - 1 = Len(Trace)
 =============================================================================
